@@ -774,6 +774,88 @@ struct IdxCase {
     i: usize,
 }
 
+
+// ---- user-defined white points whose Y is not 1 (tristimulus values on a 0-100 scale, or a dim white) ----
+// The CIE definitions only use ratios to the reference white (and u'v' are scale free), so white must still be
+// L* = 100 with zero a*, b*, u*, v*, greys must be neutral, and the inverse must undo the forward conversion.
+#[derive(Debug, Clone, Copy, PartialEq)]
+struct WpPercent;
+impl<T: palette::num::Real> WhitePoint<T> for WpPercent {
+    fn get_xyz() -> Xyz<Any, T> {
+        Xyz::new(T::from_f64(95.047), T::from_f64(100.0), T::from_f64(108.883))
+    }
+}
+#[derive(Debug, Clone, Copy, PartialEq)]
+struct WpDim;
+impl<T: palette::num::Real> WhitePoint<T> for WpDim {
+    fn get_xyz() -> Xyz<Any, T> {
+        Xyz::new(T::from_f64(0.96422 * 0.25), T::from_f64(0.25), T::from_f64(0.82521 * 0.25))
+    }
+}
+#[derive(Debug, Clone, Serialize, Deserialize)]
+struct CustomWpCase {
+    wp: u8,
+    /// grey level relative to the white (1 = the white itself)
+    g: f64,
+    /// a chromatic colour relative to the white, for the round trips
+    c: [f64; 3],
+    f32_: bool,
+}
+fn custom_wp_point(c: &CustomWpCase, obs: &mut Obs) -> PropResult {
+    obs.nontrivial_if(c.g != 1.0);
+    macro_rules! run {
+        ($W:ty, $T:ty, $w:expr, $tol:expr) => {{
+            let w: [f64; 3] = $w;
+            let tol: f64 = $tol;
+            let name = stringify!($W);
+            let ty = stringify!($T);
+            let grey = Xyz::<$W, $T>::new((w[0] * c.g) as $T, (w[1] * c.g) as $T, (w[2] * c.g) as $T);
+            let want_l = rf::xyz_to_lab([rf::D65[0] * c.g, c.g, rf::D65[2] * c.g], rf::D65)[0];
+            let lab = Lab::<$W, $T>::from_color_unclamped(grey);
+            ensure!((lab.l as f64 - want_l).abs() <= 100.0 * tol && (lab.a as f64).abs() <= 100.0 * tol && (lab.b as f64).abs() <= 100.0 * tol, "white point {} ({}): grey {} x white -> Lab {:?}, expected L* = {} and a* = b* = 0", name, ty, c.g, lab, want_l);
+            let luv = Luv::<$W, $T>::from_color_unclamped(grey);
+            ensure!((luv.l as f64 - want_l).abs() <= 100.0 * tol && (luv.u as f64).abs() <= 100.0 * tol && (luv.v as f64).abs() <= 100.0 * tol, "white point {} ({}): grey {} x white -> Luv {:?}, expected L* = {} and u* = v* = 0", name, ty, c.g, luv, want_l);
+            let lch = Lch::<$W, $T>::from_color_unclamped(grey);
+            let lchuv = Lchuv::<$W, $T>::from_color_unclamped(grey);
+            ensure!((lch.chroma as f64).abs() <= 100.0 * tol && (lchuv.chroma as f64).abs() <= 100.0 * tol, "white point {} ({}): grey {} x white has chroma {} (Lch) / {} (Lchuv)", name, ty, c.g, lch.chroma, lchuv.chroma);
+            let yxy = Yxy::<$W, $T>::from_color_unclamped(grey);
+            let sum = w[0] + w[1] + w[2];
+            if c.g > 1e-3 {
+                ensure!((yxy.x as f64 - w[0] / sum).abs() <= tol && (yxy.y as f64 - w[1] / sum).abs() <= tol, "white point {} ({}): grey {} x white -> xy ({}, {}) but the white's chromaticity is ({}, {})", name, ty, c.g, yxy.x, yxy.y, w[0] / sum, w[1] / sum);
+            }
+            // there and back for a chromatic colour (relative to the white)
+            let col = Xyz::<$W, $T>::new((w[0] * c.c[0]) as $T, (w[1] * c.c[1]) as $T, (w[2] * c.c[2]) as $T);
+            let scale = w[1];
+            if c.c[1] > 1e-3 {
+                let b1 = Xyz::<$W, $T>::from_color_unclamped(Lab::<$W, $T>::from_color_unclamped(col));
+                let b2 = Xyz::<$W, $T>::from_color_unclamped(Luv::<$W, $T>::from_color_unclamped(col));
+                let b3 = Xyz::<$W, $T>::from_color_unclamped(Yxy::<$W, $T>::from_color_unclamped(col));
+                for (nm, b) in [("Lab", b1), ("Luv", b2), ("Yxy", b3)] {
+                    let d = ((b.x - col.x) as f64).abs().max(((b.y - col.y) as f64).abs()).max(((b.z - col.z) as f64).abs()) / scale;
+                    ensure!(d <= 10.0 * tol, "white point {} ({}): Xyz {:?} -> {} -> Xyz {:?} (relative error {:e})", name, ty, col, nm, b, d);
+                }
+                // scale independence: the same colour relative to the unit-luminance white of the same chromaticity
+                let unit: [f64; 3] = [w[0] / w[1], 1.0, w[2] / w[1]];
+                let want = rf::xyz_to_luv([unit[0] * c.c[0], c.c[1], unit[2] * c.c[2]], unit);
+                let got = Luv::<$W, $T>::from_color_unclamped(col);
+                ensure!((got.l as f64 - want[0]).abs() <= 200.0 * tol && (got.u as f64 - want[1]).abs() <= 400.0 * tol && (got.v as f64 - want[2]).abs() <= 400.0 * tol, "white point {} ({}): Luv of {:?} = {:?} but CIE L*u*v* relative to that white is {:?}", name, ty, col, got, want);
+                let want = rf::xyz_to_lab([unit[0] * c.c[0], c.c[1], unit[2] * c.c[2]], unit);
+                let got = Lab::<$W, $T>::from_color_unclamped(col);
+                ensure!((got.l as f64 - want[0]).abs() <= 200.0 * tol && (got.a as f64 - want[1]).abs() <= 400.0 * tol && (got.b as f64 - want[2]).abs() <= 400.0 * tol, "white point {} ({}): Lab of {:?} = {:?} but CIE L*a*b* relative to that white is {:?}", name, ty, col, got, want);
+            }
+        }};
+    }
+    let percent = [95.047, 100.0, 108.883];
+    let dim = [0.96422 * 0.25, 0.25, 0.82521 * 0.25];
+    match (c.wp, c.f32_) {
+        (0, false) => run!(WpPercent, f64, percent, 1e-11),
+        (0, true) => run!(WpPercent, f32, percent, 2e-5),
+        (_, false) => run!(WpDim, f64, dim, 1e-11),
+        (_, true) => run!(WpDim, f32, dim, 2e-5),
+    }
+    Ok(())
+}
+
 fn main() {
     let mut h = Harness::new("C14");
     h.rule("Complete enumeration of the configuration axes (16 white points; 21 RGB standards incl. linear forms and user-defined (primaries, white) tuples; 16x16 white point pairs x Bradford / von Kries / XYZ scaling x f32/f64 through the deprecated API and 15x15 through the new API) x generated inputs (grey levels over [0,1] incl. thresholds and neighbours; XYZ colours; random 3x3 matrices with |det| >= 1e-3; viewing conditions). Oracles: published white point tables (exact); RGB white -> XYZ white, L* = 100, zero a* b* u* v* chroma, Oklab (1,0,0); greys -> vanishing chroma-like quantity in every colourimetric space and back to equal RGB components; hard-coded matrices are mutual inverses and equal the matrix derived from published primaries and white; adaptation == reference von Kries construction, source white -> destination white, identity on equal white points, there and back; Matrix3 algebra against plain row-major products; CAM16 J = 100 for the adopted white. Non-trivial = grey strictly between black and white / different white points / non-identity matrices / non-default viewing conditions; distinct by hash.");
@@ -999,6 +1081,16 @@ fn main() {
     }
     h.require_class("adaptation_generated", "different white points", 1000);
     h.require_class("adaptation_generated", "equal white points", 1000);
+    let n = h.n(200_000, 4_000_000);
+    h.prop(
+        "user_defined_white_points_with_y_not_1",
+        n,
+        || {
+            let g = prop_oneof![3 => pv::gen::unit(), 2 => Just(1.0), 1 => (0u32..=4096).prop_map(|k| k as f64 / 4096.0), 1 => 0.0..=0.01f64];
+            (0u8..2, g, proptest::array::uniform3(0.0..=1.0f64), any::<bool>()).prop_map(|(wp, g, c, f32_)| CustomWpCase { wp, g, c, f32_ })
+        },
+        custom_wp_point,
+    );
     h.finish();
 }
 
